@@ -472,9 +472,11 @@ class DataFrameSchemaBackend(PolarsSchemaBackend):
             else:
                 for col_schema in schema.columns.values():
                     if (
-                        not col_schema.required
+                        not col_schema.regex
                         and col_schema.name not in lf_columns
                     ):
+                        # nothing to coerce: a missing required column is
+                        # reported by check_column_presence
                         continue
 
                     if schema.coerce or col_schema.coerce:
